@@ -10,6 +10,8 @@ for d in sorted(glob.glob(os.path.join(ROOT, "seeded/*/meta.json"))):
     needs = " ".join(m.get("needs_to_manifest", "").split())
     needs = (needs[:230] + "…") if len(needs) > 230 else needs
     by = [p for p, v in r.get("checks", {}).items() if isinstance(v, dict) and v["exit"] == 1 and v["violations"]]
+    if m.get("obsolete"):
+        rows.append("| %s | %s | %s | %s | obsolete on the repaired tree: %s (last caught by %s) |" % (sid, m["property"], ", ".join(os.path.basename(f) for f in m.get("files", [])), needs.replace("|", "\\|"), m["obsolete"], ", ".join(by) if by else "-")); continue
     n += 1; c += 1 if by else 0
     rows.append("| %s | %s | %s | %s | %s |" % (sid, m["property"], ", ".join(os.path.basename(f) for f in m.get("files", [])), needs.replace("|", "\\|"), ", ".join(by) if by else ("**missed**" if r else "not run")))
 txt = "<!-- SEEDED-TABLE-BEGIN -->\n%d seeded changes, %d caught.\n\n%s\n<!-- SEEDED-TABLE-END -->" % (n, c, "\n".join(rows))
